@@ -275,6 +275,24 @@ fn build_fn_edits(
     }
     let mut rw = Rewriter::new(src, &it.rules, &it.path);
     let mut edits: Vec<Edit> = vec![];
+    // R64: a function returning `impl Iterator<Item = T> [+ '_]` whose body is an adapter chain is extracted as
+    // returning the vector of what the chain yields (`Vec<T>`); the body is rewritten by R65
+    if it.rules.iter().any(|r| r == "R64") {
+        match &sig.output {
+            syn::ReturnType::Type(_, ty) => {
+                let r = ty.span().byte_range();
+                let t: String = src[r.clone()].split_whitespace().collect::<Vec<_>>().join(" ");
+                let inner = t.strip_prefix("impl Iterator<Item = ").and_then(|x| x.rfind('>').map(|k| x[..k].to_string()));
+                match inner {
+                    Some(item) if t[t.rfind('>').unwrap() + 1..].trim().is_empty() || t[t.rfind('>').unwrap() + 1..].trim() == "+ '_" => {
+                        edits.push(Edit { range: r.clone(), text: format!("Vec<{item}>"), prio: 1 });
+                    }
+                    _ => die("unsupported", &format!("{}: R64 side condition: the return type `{t}` is not `impl Iterator<Item = T> [+ '_]`", it.path)),
+                }
+            }
+            syn::ReturnType::Default => die("unsupported", &format!("{}: R64 on a function returning ()", it.path)),
+        }
+    }
     // named return value
     if let Some(name) = &it.ret {
         match &sig.output {
